@@ -536,6 +536,7 @@ func runScenarios(c *engine.Ctx, al []call, scenarios []scenario, bound int) {
 				}
 				if x.Deadlock {
 					viol = engine.Violate("deadlock", "", "schedule %s ends with no enabled thread although not all threads finished", sched.DescribeSchedule(x))
+					t.Poison()
 					return false
 				}
 				if rs := sched.NewRaceReports(); len(rs) > 0 {
